@@ -1002,6 +1002,10 @@ class Interp:
 
     def identical(self, a, b):
         if isinstance(a, VNone) or isinstance(b, VNone):
+            # a dynamically typed value may BE None (kind 0): `x is None` asks for its kind
+            other = b if isinstance(a, VNone) else a
+            if isinstance(other, VDyn):
+                return other.kind == 0
             return z3.BoolVal(isinstance(a, VNone) and isinstance(b, VNone))
         if isinstance(a, VRef) and isinstance(b, VRef):
             return a.term == b.term
